@@ -3,13 +3,25 @@ from vlib import common as C
 from vlib import langsuite as L
 
 
-def run_one(prop, suite, tier, rule, assumptions):
+def run_one(prop, suite, tier, rule, assumptions, extra_thorough=(), gen=0):
+    """extra_thorough: further suites run in the thorough tier; gen: number of generated programs whose
+    result-level disagreements attributed to `prop` are reported too (thorough tier)."""
+    from vlib import gensuite as G
     chk = C.Check(prop, tier)
-    r = L.run_suite(chk, suite, tier)
-    bad, n = L.validate_events(chk, r["events_path"], suite)
-    L.fill_coverage(chk, [r], n, rule)
+    results = [L.run_suite(chk, suite, tier)]
+    bad, n = L.validate_events(chk, results[0]["events_path"], suite)
+    if tier == "thorough":
+        for s in extra_thorough:
+            r = L.run_suite(chk, s, tier)
+            b2, n2 = L.validate_events(chk, r["events_path"], s)
+            results.append(r)
+            bad += b2
+            n += n2
+        if gen:
+            results.append(G.run_gen(chk, tier, gen, salt=sum(map(ord, prop))))
+    L.fill_coverage(chk, results, n, rule)
     chk.cov["exhaustive"] = True
-    others = L.report(chk, prop, [r], bad)
+    others = L.report(chk, prop, results, bad, attribute=G.attribute)
     chk.cov["violations_of_other_properties_seen"] = others
     chk.assumptions += assumptions + [
         "TLC/SANY/CommunityModules are correct",
